@@ -121,6 +121,11 @@ class Prog:
         self.stores.append(s)
         return s
 
+    def named_scalar(self):
+        nm = "s%d" % len(self.scalars)
+        self.scalars.append(nm)
+        return nm, nm
+
     def scalar(self):
         r = self.rng.random()
         if r < 0.25:
@@ -729,6 +734,8 @@ def gen_program(pid, rng, group, force=None):
     force = force or {}
     P = Prog(pid, rng, group)
     P.T = choose(rng, [("double", 6), ("float", 2), ("long double", 2)])
+    if force.get("T"):
+        P.T = force["T"]
     shape = force["shape"] if force else rng.choice(SHAPES[group])
     f = shape[0]
     ne = nelem(shape)
@@ -779,11 +786,19 @@ def gen_program(pid, rng, group, force=None):
         info["op"] = op
     elif form == "scale":
         op = force.get("op") or rng.choice(["*=", "/="])
-        sc = P.scalar()
+        sk = force.get("sk")
+        if sk == "int":
+            # never +-1: 1/s is exact for those and a reciprocal taken in the integer type goes unnoticed
+            lit = str(rng.choice([2, 3, 4, 5, 7, -2, -3, -5]))
+            sc = (lit, lit)
+        elif sk in ("own", "float"):
+            sc = P.named_scalar()
+        else:
+            sc = P.scalar()
         label = op
         if sc[0].lstrip("-").isdigit():
             label = op + "(int literal)"
-        elif P.T != "float" and rng.random() < 0.25:
+        elif sk == "float" or (sk is None and P.T != "float" and rng.random() < 0.25):
             # a scalar of lower precision than the array (float against double / long double)
             lo = P.name("sf")
             P.pre.append("const float %s = static_cast<float>(%s);" % (lo, sc[0]))
@@ -857,6 +872,8 @@ def gen_program(pid, rng, group, force=None):
     stratum = ";".join(st) if st else "-"
     if force.get("info"):
         info["subview"] = force["info"]
+    if force.get("scale_info"):
+        info["scalequota"] = force["scale_info"]
     info.update({"api": api, "stratum": stratum, "alias": alias, "mode": mode, "rhs_kinds": kinds,
                  "statement": stmt_text, "n_leaves": len(rl), "nelem": ne})
     L = []
@@ -1161,6 +1178,85 @@ def gen_subview_program(pid, rng, group, spec_index):
     return gen_program(pid, rng, group, force)
 
 
+# ----------------------------------------------------------------------------- scale quota
+# `x /= s` and `x *= s` are implemented separately by GenericFixedSizeArray (tvector, tmatrix, stensor,
+# tensor, fsarray), GenericRuntimeArray (vector, matrix, runtime_array), View (map, sub-views, ViewsArray
+# elements) and CoalescedViewBase (StridedCoalescedViewsArray elements); whether the scalar is an int
+# literal, a float against a double / long double array or a value of the array's own type decides
+# whether a reciprocal taken in the wrong arithmetic is visible.  Every run therefore contains, by plan
+# and not by chance, each destination kind x scalar kind for `/=` (quick: `*=` once per destination kind
+# with a rotating scalar kind; thorough: the full cross for both operators).
+
+SCALE_KINDS = {"A": ["tvector", "tmatrix", "vector", "matrix", "subview"],
+               "B": ["stensor", "tensor", "View", "StridedCoalescedViewsArray[k]", "ViewsArray[k]"],
+               "C": ["runtime_array", "View"]}
+SCALAR_KINDS = ["int", "float", "own"]
+SCALE_QUOTA = {"quick": {"A": 5, "B": 7, "C": 8}, "thorough": {"A": 5, "B": 7, "C": 8}}
+
+
+def scale_table(group, tier, seed):
+    kinds = SCALE_KINDS[group]
+    t = [(k, "/=", sk) for sk in SCALAR_KINDS for k in kinds]
+    if tier == "thorough":
+        t += [(k, "*=", sk) for sk in SCALAR_KINDS for k in kinds]
+    else:
+        t += [(k, "*=", SCALAR_KINDS[(i + int(seed)) % 3]) for i, k in enumerate(kinds)]
+    return t
+
+
+def gen_scale_program(pid, rng, group, entry):
+    kind, op, sk = entry
+    T = None
+    if sk == "float":
+        T = rng.choice(["double", "double", "long double"])
+    info = {"kind": kind, "op": op, "scalar": sk}
+    force = {"form": "scale", "op": op, "sk": sk, "T": T, "scale_info": info}
+    if kind == "subview":
+        which = rng.choice(["col3", "row3", "sub"])
+        while True:
+            R, C = rng.randint(3, 5), rng.randint(3, 5)
+            if R != C:
+                break
+        if which == "sub":
+            while True:
+                K = (rng.randint(1, R), rng.randint(1, C))
+                if K[0] * K[1] >= 2:
+                    break
+            shape = ("tmatrix", K[0], K[1])
+        else:
+            full = C if which == "row3" else R
+            K = rng.randint(2, full)
+            shape = ("tvector", K)
+
+        def mkdst(P):
+            st = P.obj_store(("tmatrix", R, C))
+            return mk_tm_subview(P, which, K, st)
+        force["tag"] = "subview:nonsquare"
+        info["view"] = which
+    elif kind in ("View", "StridedCoalescedViewsArray[k]", "ViewsArray[k]"):
+        fam = {"A": ["tvector", "tmatrix", "vector"], "B": ["stensor", "tensor"], "C": ["runtime_array"]}[group]
+        if kind == "StridedCoalescedViewsArray[k]":
+            fam = ["stensor"]
+        f = rng.choice(fam)
+        shape = rng.choice([x for x in SHAPES[group] if x[0] == f])
+        mk = {"View": mk_view_ptr, "StridedCoalescedViewsArray[k]": mk_strided_viewsarray, "ViewsArray[k]": mk_viewsarray}[kind]
+
+        def mkdst(P):
+            for _ in range(20):
+                o = mk(P, shape, None)
+                if o is not None:
+                    return o
+            raise RuntimeError("cannot place " + kind)
+    else:
+        shape = rng.choice([x for x in SHAPES[group] if x[0] == kind])
+
+        def mkdst(P):
+            return mk_plain(P, shape)
+    force["shape"] = shape
+    force["mkdst"] = mkdst
+    return gen_program(pid, rng, group, force)
+
+
 def tu_source(group, progs):
     L = ["// generated by lib/etgen.py — do not edit", "#define VFH_MAIN", "#include \"math/c17_support.hxx\""]
     for h in INCLUDES[group]:
@@ -1193,13 +1289,19 @@ def generate(seed, tier):
     out = []
     pid = 0
     spec = int(seed) * 7          # the (view, use, K) table is cycled from a seed-dependent start
+    sidx = {"A": 0, "B": 0, "C": 0}   # position in the scale table of each group (cycled across its TUs)
     for k, (group, n, nsub) in enumerate(plan(tier)):
         rng = random.Random("c17/%s/%s/%d" % (seed, tier, k))
         progs = []
+        nscale = SCALE_QUOTA[tier][group]
+        table = scale_table(group, tier, seed)
         for j in range(n):
             if j >= n - nsub:
                 progs.append(gen_subview_program(pid, rng, group, spec))
                 spec += 1
+            elif j >= n - nsub - nscale:
+                progs.append(gen_scale_program(pid, rng, group, table[sidx[group] % len(table)]))
+                sidx[group] += 1
             else:
                 progs.append(gen_program(pid, rng, group))
             pid += 1
